@@ -53,6 +53,11 @@ CHECKS.update({
     "C20": dict(text="Prm.tla defines the normative packing (big-endian two's complement, bit / bit-area masks, constants overlaid by defaults, constraint and type-range acceptance); TLC proves the frame lemma for every byte value x bit / bit-area position x value and the integer lemma at boundary values (MC_Prm); PrmBuilder::new / set_prm / set_prm_from_text of the real crate are recorded on random layouts (overlapping bit fields, constants underneath, duplicate names, texts) with in-range, boundary and out-of-range values and validated by TLC (C20.build/field/frame/range/error). 64-bit values travel as 16-bit limbs.", note="Trusted: TLC, harness construction of UserPrmData from public fields (prm.rs). Known finding F9 (BitArea whole-byte write) is recognised by an exact emulation and reported as KNOWN-FINDING.", technique=CALL_TECH, ref="6 C20"),
 })
 
+CHECKS.update({
+    "C18": dict(text="MC_Sweep (cursor, done flag, station set, event slot) is model-checked for all responder populations over 4/5 addresses, change budget 2/3, lost replies, incl. liveness (<>[] exact list); LiveList and DpScanner run on a real FdlActiveStation against a responder population over 0..125 that changes between phases (all scanner addresses incl. 0 and 125, responders at the own address, non-DP responders, lost replies), with a logging wrapper around the application and events taken after every poll; TLC validates C18.range / alternate / spurious / ident / converge / events.", note="Trusted: harness responders (sweep.rs), TLC. Convergence is judged after 2 full sweeps of application probes without population change or lost reply (phase ends).", technique="TLA+ model of the sweep model-checked by TLC (safety + liveness) + TLC trace validation of event logs of the real applications", ref="6 C18"),
+    "C19": dict(text="Gsd.tla defines the statement interpreter above the lexical layer (settings, PrmText tables, ExtUserPrmData, references resolved at use, legacy vs extended user parameters, modules, slots, Max_Module default, compact-station rule); MC_Gsd checks the post-processing rules on all statement sequences up to length 4/5; randomly generated abstract documents are rendered with lexical variation (keyword case, spacing, comments, continuations, CR/LF, hex, preamble, blank lines, repeated definitions), parsed by the real parser and the projected result is compared by TLC with Interp(doc) (C19.faithful); grammar-aware mutations of those texts and of mock.gsd plus random bytes must never panic (C19.total).", note="Trusted: harness renderer and projection (gsd.rs), TLC. The PEG / lexical layer is not modelled in TLA+ (DESIGN section 9): mutation and random bytes have the oracle 'returns without panic' only.", technique=CALL_TECH, ref="6 C19"),
+})
+
 ALL = ["C%02d" % i for i in range(1, 21)]
 
 
